@@ -65,6 +65,7 @@ extern char vh_san_desc[128];     /* filled by the sanitizer error hook when ava
    preceded by a PROT_NONE page too when N is a multiple of the page size */
 void *vh_guard_alloc (size_t n);
 void vh_guard_free (void *p, size_t n);
+int vh_is_guard_block (const void *p);
 /* string copied so that its NUL is the last accessible byte */
 char *vh_guard_str (const char *s, size_t n);
 
